@@ -3,6 +3,7 @@ package checks
 import (
 	"encoding/json"
 	"fmt"
+	"math/rand"
 	"sync"
 	"sync/atomic"
 	"time"
@@ -169,11 +170,14 @@ func legalAmount(gs *pokerface.GameState, gp int, c spyCall) string {
 
 func c18Run(c *h.Ctx) {
 	r := c.R
-	humanized := c.Thorough() && c.Case%25 == 3
+	humanized := c.Case%20 == 3 // bots that think 0..1 s before a wager (answers come from a timer, outside the delivery)
 	gen := h.GenOpts{MinSeats: 2, MaxSeats: 9, MinPlayers: 2, Modes: []string{"ct", "cash"}, ShortStacks: r.Intn(3) > 0}
 	cfg := h.GenTable(r, gen)
 	if humanized {
-		cfg.ActionTime = 1
+		cfg.ActionTime = 2 // thinking time is drawn from [0, action time)
+		if len(cfg.Players) > 4 {
+			cfg.Players = cfg.Players[:4]
+		}
 	}
 	if r.Intn(4) == 0 { // minimum bet above some stacks
 		for i := range cfg.Players {
@@ -312,9 +316,30 @@ func c18Run(c *h.Ctx) {
 	s.TE.StartTableGame()
 	hands := 0
 	maxHands := 4 + r.Intn(8)
+	if humanized {
+		maxHands = 1
+		// while the bots think, table-level events keep re-publishing the unchanged hand state
+		stopNoise := make(chan struct{})
+		defer close(stopNoise)
+		go func() {
+			for {
+				select {
+				case <-stopNoise:
+					return
+				case <-time.After(time.Duration(150+rand.Intn(300)) * time.Millisecond):
+					s.TE.PlayerExtendActionDeadline("", 1)
+				}
+			}
+		}()
+		c.Feature("table-events-while-bots-think")
+	}
 	var oldViews []*pt.Table
-	for hands < maxHands && !c.Failed() {
-		e, ok := s.WaitFor(25*time.Second, func(e *h.Ev) bool {
+	for hands <= maxHands && !c.Failed() {
+		handWait := 25 * time.Second
+		if humanized {
+			handWait = 90 * time.Second
+		}
+		e, ok := s.WaitFor(handWait, func(e *h.Ev) bool {
 			if e.Kind == h.EvTable && e.T != nil && e.T.State.GameState != nil && e.T.State.Status == pt.TableStateStatus_TableGamePlaying && len(oldViews) < 6 && r.Intn(5) == 0 {
 				oldViews = append(oldViews, e.T)
 			}
@@ -333,12 +358,15 @@ func c18Run(c *h.Ctx) {
 						}
 					}
 				}
-				violate("C18/bot-table-did-not-play-out", fmt.Sprintf("a hand played by bots only did not reach settlement within 25 s (hands completed so far: %d; last rejected bot move: %s)", hands, rejected), witness())
+				violate("C18/bot-table-did-not-play-out", fmt.Sprintf("a hand played by bots only did not reach settlement within the watchdog (25 s, humanized 90 s) (hands completed so far: %d; last rejected bot move: %s)", hands, rejected), witness())
 			}
 			return
 		}
 		if e.Kind != h.EvSetup {
 			break // paused: fewer than two bots with chips
+		}
+		if hands == maxHands {
+			break // the last hand has settled (this is the set-up of the one after it)
 		}
 		if hands > 0 || true {
 			// stale views: re-deliver views of earlier states; a bot must not answer them
@@ -409,7 +437,7 @@ func init() {
 		ID:        "C18",
 		Level:     "exploration",
 		Technique: "runtime monitoring with an adapter spy between every bot and the real engine: per delivered view the spy decides whether the bot is asked (dealt in, allowed actions, view newer than anything delivered before) and checks: exactly one call, for itself, allowed kind, legal amount, accepted by the engine; silence otherwise; stale views are re-delivered on purpose; every bot-only hand must settle",
-		Rule: "case = one bot-only table (2..9 bots, CT/cash, default or short deck, ante on/off, SB/BB / dealer-blind / no-SB, stacks from one chip to deep, a quarter of the cases with stacks at or below one big blind) playing 4..11 hands or until fewer than two bots have chips; earlier views are re-delivered between hands and a table-level event re-publishes the hand state mid-hand; thorough adds humanized bots with action time 1; " +
+		Rule: "case = one bot-only table (2..9 bots, CT/cash, default or short deck, ante on/off, SB/BB / dealer-blind / no-SB, stacks from one chip to deep, a quarter of the cases with stacks at or below one big blind) playing 4..11 hands or until fewer than two bots have chips; earlier views are re-delivered between hands and a table-level event re-publishes the hand state mid-hand; one case in twenty uses humanized bots (thinking 0..1 s per wager) while a second goroutine keeps re-publishing the hand state; " +
 			"non-trivial = at least one hand was played and the bots made calls; distinct = config + seed",
 		Assumptions: []string{"non-humanized bots answer synchronously inside the delivery, so calls made during a delivery belong to it", "a view is stale when an equal or newer state of the same hand was delivered to that bot before"},
 		Cases:       func(tier string) int { return map[string]int{"quick": 400, "thorough": 6000}[tier] },
@@ -418,9 +446,7 @@ func init() {
 		},
 		RequiredFeatures: func(tier string) []string {
 			f := []string{"bot-action:ready", "bot-action:pay", "bot-action:call", "bot-action:raise", "bot-action:bet", "bot-action:allin", "bot-action:fold", "bot-action:check", "bot-action:pass", "stale-view-redelivered", "table-event-mid-hand", "stack-at-most-one-big-blind"}
-			if tier == "thorough" {
-				f = append(f, "humanized")
-			}
+			f = append(f, "humanized", "table-events-while-bots-think")
 			return f
 		},
 		CaseTimeout: 240e9,
